@@ -134,8 +134,10 @@ def run(ctx, H):
             ctx.violation("panic-%d" % i, {"kind": "an extractor panicked", "request": reqs[i], "type": e.rust()})
             continue
         for fw, ex, name in (("fw_actix", "ex_actix", "actix-web AwebJson"), ("fw_query", "ex_query", "actix-web AwebQueryParameter::from_query"),
-                             ("fw_query", "ex_query_req", "actix-web AwebQueryParameter (FromRequest)"), ("fw_axum", "ex_axum", "axum AxumJson")):
-            rows.append("(%d, mkHC t_%d %s %s ftl)" % (len(rows), e.tid, cfw(o[fw]), cex(o[ex])))
+                             ("fw_query", "ex_query_req", "actix-web AwebQueryParameter (FromRequest)"), ("fw_axum", "ex_axum", "axum AxumJson"),
+                             ("fw_actix", "ex_actix_c", "actix-web AwebJson with a user error type (own response 422)"),
+                             ("fw_axum", "ex_axum_c", "axum AxumJson with a user error type (own response 422)")):
+            rows.append("(%d, mkHC t_%d %s %s ftl %s)" % (len(rows), e.tid, cfw(o[fw]), cex(o[ex]), "true" if ex.endswith("_c") else "false"))
             what.append((i, name, fw, ex))
     shards = min(C.NPROC, max(1, len(rows) // 200))
     files = []
@@ -167,7 +169,7 @@ def run(ctx, H):
     ctx.coverage.update({
         "evaluations": len(rows), "distinct_nontrivial": len({(r["tid"], r["body"], r["content_type"], r["query"], r["cfg"]) for r in reqs}),
         "rule": "%d catalogue types (all generic in the error type) x requests generated from mutated payloads: valid / ill-typed JSON bodies, malformed bodies, right / wrong / missing "
-                "content types, with or without an application-level web::JsonConfig (payload limit, accepted content type, optional content type, custom error handler), query strings derived from the payload or malformed; four extractor entry points per request (AwebJson, AwebQueryParameter::from_query and as FromRequest, "
+                "content types, with or without an application-level web::JsonConfig (payload limit, accepted content type, optional content type, custom error handler), query strings derived from the payload or malformed; six extractor runs per request (AwebJson, AwebQueryParameter::from_query and as FromRequest, AxumJson with JsonError; AwebJson and AxumJson again with a user error type whose own response is 422), "
                 "AxumJson), each compared with the framework's own extractor on an identical request followed by the model of deserialize + JsonError; non-trivial = distinct request" % len(sel),
         "outcome_classes": classes,
         "samples": [dict(reqs[k], framework=obs[k]["fw_axum"], extractor=obs[k]["ex_axum"]) for k in (0, len(reqs) // 2)],
